@@ -136,6 +136,13 @@ func TestVerifC12_fp448(t *testing.T) {
 	f.CheckUn(r, bf.UnOp{Name: "Inv", Do: func(z, x bf.Elem) { fp.Inv(z.(*fp.Elt), x.(*fp.Elt)) }, Ref: bf.RefInv}, all, true)
 	f.CheckPred(r, bf.Pred{Name: "IsZero", Do: func(x bf.Elem) bool { return fp.IsZero(x.(*fp.Elt)) }, Ref: bf.RefIsZero}, wide)
 	f.CheckPred(r, bf.Pred{Name: "IsOne", Do: func(x bf.Elem) bool { return fp.IsOne(x.(*fp.Elt)) }, Ref: bf.RefIsOne}, wide)
+	{
+		p := bf.P448
+		b := []bf.Operand{{V: new(big.Int), Name: "0"}, {V: big.NewInt(1), Name: "1"}, {V: new(big.Int).Sub(p, big.NewInt(1)), Name: "p-1"}, {V: bf.Pseudo("fp448-pred", 0, p), Name: "pseudo0"}, {V: bf.Pseudo("fp448-pred", 1, p), Name: "pseudo1"}}
+		b = append(b, bf.Operand{V: p, Name: "p"}, bf.Operand{V: new(big.Int).Add(p, big.NewInt(1)), Name: "p+1"}, bf.Operand{V: new(big.Int).Sub(bf.Pow2(448), big.NewInt(1)), Name: "2^448-1"})
+		f.CheckBitFlips(r, bf.BitFlip{Coords: 1, Bits: 448, P: p, Limit: bf.Pow2(448), IsZero: func(x bf.Elem) bool { return fp.IsZero(x.(*fp.Elt)) }, IsOne: func(x bf.Elem) bool { return fp.IsOne(x.(*fp.Elt)) }}, b)
+		r.RequireCounter("fp448.predicates.one-bit-neighbours", 8*448)
+	}
 	r.RequireCounter("fp448.IsZero.true", 2) // 0, p
 	r.RequireCounter("fp448.IsOne.true", 2)  // 1, p+1
 
